@@ -22,7 +22,7 @@ STATS = {"forks": 0}
 
 def _child_main(w, fn, args, shims):
     try:
-        signal.alarm(int(CHILD_TIMEOUT) + 5)
+        signal.alarm(int(_scaled(args, None)) + 30)
         if shims:
             from . import shims as S
             S.apply(shims)
@@ -38,9 +38,21 @@ def _child_main(w, fn, args, shims):
     os.close(w)
 
 
+def _scaled(args, timeout):
+    """default wall limit of a child: CHILD_TIMEOUT, plus 0.3 s per op of the program it is handed (soak sessions
+    under a loaded machine), unless an explicit limit is given"""
+    if timeout is not None:
+        return timeout
+    n = 0
+    for a in args:
+        if isinstance(a, list) and a and isinstance(a[0], dict) and "op" in a[0]:
+            n = max(n, len(a))
+    return CHILD_TIMEOUT + 0.3 * n
+
+
 def run_child(fn, args=(), shims=(), timeout=None):
     """run fn(*args) in a forked child, return its JSON-able result"""
-    timeout = CHILD_TIMEOUT if timeout is None else timeout
+    timeout = _scaled(args, timeout)
     r, w = os.pipe()
     sys.stdout.flush()
     sys.stderr.flush()
@@ -107,7 +119,7 @@ class AltZygote:
         self.hashseed = hashseed
 
     def call(self, fn_name, args, shims=(), timeout=None):
-        timeout = CHILD_TIMEOUT if timeout is None else timeout
+        timeout = _scaled(args, timeout)
         req = json.dumps({"fn": fn_name, "args": args, "shims": list(shims), "timeout": timeout})
         try:
             self.p.stdin.write(req + "\n")
